@@ -28,6 +28,11 @@ pub static C05: C05Prop = C05Prop;
 
 /// what one parse + run of a program looks like, with every order-dependent rendering normalised
 fn outcome_of(text: &str) -> String {
+    outcome_of_nth(text, 1)
+}
+
+/// the outcome of the n-th execution of one parsed program (every execution starts from fresh state)
+fn outcome_of_nth(text: &str, n: usize) -> String {
     run::default_budget();
     let interp = exec::safe_interpreter();
     let code = match run::parse_guarded(&interp, text) {
@@ -35,6 +40,10 @@ fn outcome_of(text: &str) -> String {
         Ok(Err(kind)) => return format!("rejected {kind}"),
         Err(o) => return o.short(),
     };
+    for _ in 1..n {
+        let _ = exec::exec_code(&code, false);
+        run::default_budget();
+    }
     let run = exec::exec_code(&code, false);
     let static_type = run.static_type.map(|t| t.print()).unwrap_or_else(|| "<type panicked>".into());
     let result = match &run.outcome {
@@ -69,10 +78,10 @@ impl Property for C05Prop {
             // a union of 3-4 members of one kind whose components partially subsume each other: what
             // the checker derives from it (field, element, result, parameter types ...) is a fold over
             // the members in hash order
-            const COMPONENTS: [&str; 17] = [
+            const COMPONENTS: [&str; 18] = [
                 "any",
                 "int", "float", "string", "[int]", "[int|float]", "[int|float|string]", "[string]", "(int, [int])", "(int, [int|string])",
-                "mut int", "mut (int|float)", "()->int", "()->int|float", "struct{a: [int]}", "struct{a: [int|string]}", "()",
+                "mut int", "mut (int|float)", "mut string", "()->int", "()->int|float", "struct{a: [int]}", "struct{a: [int|string]}", "()",
             ];
             // one kind for all members, or (wrap 9) a kind of its own for every member: the derived
             // types must then be "none" whatever member the fold meets first
@@ -146,6 +155,15 @@ impl Property for C05Prop {
                             format!("C05:program:{what}"),
                             format!("`{text}`\n  repetition 0: {first}\n  repetition {r}: {again}"),
                         );
+                    }
+                }
+                // the third execution of one parsed program gives what the first gives
+                if first.starts_with("accepted") {
+                    let t = text.clone();
+                    let third = on_fresh_thread(move || outcome_of_nth(&t, 3));
+                    stats.eval();
+                    if third != first {
+                        return fail("C05:program:re-execution", format!("`{text}`\n  first execution: {first}\n  third execution of the same parsed program: {third}"));
                     }
                 }
                 // the same program with its imported files at paths never used before in this process:
@@ -226,10 +244,19 @@ impl Property for C05Prop {
                     return Verdict::Discard("union text does not parse");
                 };
                 stats.nontrivial(&u);
-                let first = queries(&t0);
+                let first = format!("{} | printed and read back: {}", queries(&t0), Ty::from_real(&t0).print());
                 for r in 0..reps {
                     let u2 = u.clone();
-                    let again = on_fresh_thread(move || Type::from_str(&u2).map(|t| queries(&t)).unwrap_or_else(|_| "does not parse".into()));
+                    // the text a type prints as lists union members in hash order: whatever order comes out,
+                    // reading it back gives the same type
+                    let again = on_fresh_thread(move || {
+                        Type::from_str(&u2)
+                            .map(|t| {
+                                let back = Type::from_str(&t.to_string()).map(|b| Ty::from_real(&b).print()).unwrap_or_else(|_| format!("`{t}` does not parse"));
+                                format!("{} | printed and read back: {back}", queries(&t))
+                            })
+                            .unwrap_or_else(|_| "does not parse".into())
+                    });
                     stats.evals(14);
                     if again != first {
                         return fail("C05:types:queries", format!("what the checker derives from `{u}` differs between two parses (repetition {r})\n  first: {first}\n  later: {again}"));
@@ -297,6 +324,12 @@ pub fn run(session: &Session) -> i32 {
         "f := (x: struct{a: int, b: string}|struct{a: float, b: string}) -> any { return x.a; }; f(struct{a := 1, b := \"s\"})",
         "f := (g: (int)->int|(float)->float) -> any { return g; }",
         "[mut 1, mut \"s\"]",
+        "it := [mut 5]~ ? mut int; it(); c := it().1; c += 7; *c",
+        "it := [1]~ ? mut int|mut string; it(); c := it().1; if k: mut int = c { k += 1; }; c",
+        "t := [mut \"a\", \"b\", 1]~ ? string|mut string $]; t",
+        "t := [mut 1, 2, \"b\"]~ ? mut int|int $]; t",
+        "f := (x: string|mut string|int) -> any { return [x]~ ? mut string|string $]; }; (f(\"a\"), f(mut \"b\"), f(1))",
+        "total := mut 0; s := [1, 2, 3]~ $ 0 (acc: int, x: int) -> int { total += x; return acc + x; }; (s, *total)",
         "(x: [int]|[string]) -> any { return x[0]; }",
     ] {
         cases.push(json!({"kind": "program", "text": text, "reps": reps * 4}));
